@@ -26,6 +26,7 @@ func runC03(c *Ctx) {
 	ruleNoRetryAfterParseError(c, "R03.f")
 	ruleSerializerTotal(c, "R03.g")
 	ruleReplyBufferLocal(c, "R03.j")
+	ruleNoReadDeadlineLeftArmed(c, "R03.k")
 	ruleGoroutineOwnsItsIteration(c, "R03.i")
 	// a panic below the dispatcher is swallowed by the connection barrier: the request gets no
 	// reply and the requests pipelined behind it are dropped with the connection
